@@ -175,6 +175,11 @@ func (w *Workspace) Prepare(c *Case) {
 			}
 			c.Cfg.ImportPathOverrides[c.StructImport[:len(c.StructImport)-1]] = "example.com/decoy/one"
 			c.Cfg.ImportPathOverrides[c.StructImport[:strings.LastIndex(c.StructImport, "/")+2]] = "example.com/decoy/two"
+			if c.UseOverride && !c.FullPathOverride && !c.ForeignGoPackage && c.Cfg.DefaultPackageName != c.StructImport {
+				// the alias form of the README plus an entry keyed by the path the alias stands for: nothing in the
+				// descriptor spells that path out, and an override is applied once, so the entry is inert
+				c.Cfg.ImportPathOverrides[c.StructImport] = "example.com/mirror/" + c.StructPkg
+			}
 		}
 		c.ExpectTFPkg = tp
 	} else {
